@@ -110,4 +110,24 @@ Proof.
   - contradiction.
 Qed.
 
+(** BEFORE THE REPAIR iter_err is whatever Err text a worker ran into last: texts [Ok a; Err; Err], two
+    workers — worker 1 records position 1 and exits, worker 0 later records position 2; __next__ reports
+    the error of position 2 although the stream ended at position 1 *)
+Lemma unfused_records_later_err_l (a : T) :
+  exists s, urun false (uinit [Some a; None; None] 2) fused_schedule = Some s
+    /\ uterminal false s
+    /\ out (u_base s) = [f (0, a)]
+    /\ u_err s = Some 2.
+Proof.
+  eexists. split; [vm_compute; reflexivity|]. split; [|split; reflexivity].
+  intros l Hl. destruct l as [t|t|t|t|t|t| |]; try reflexivity.
+  - destruct t as [|[|t]]; try reflexivity. destruct t; reflexivity.
+  - destruct t as [|[|t]]; try reflexivity. destruct t; reflexivity.
+  - destruct t as [|[|t]]; try reflexivity. destruct t; reflexivity.
+  - destruct t as [|[|t]]; try reflexivity. destruct t; reflexivity.
+  - destruct t as [|[|t]]; try reflexivity. destruct t; reflexivity.
+  - destruct t as [|[|t]]; try reflexivity. destruct t; reflexivity.
+  - contradiction.
+Qed.
+
 End Unfused.
